@@ -80,7 +80,8 @@ ASSUMPTIONS = [
     "a refused dirty switch may leave the work tree partially updated and a switch may overwrite a colliding untracked "
     "file: both are counted as labels, not failures (the statement does not speak about them); likewise an exception "
     "from porcelain.reset(hard) or from a dirty switch that is not a TypeError/UnicodeError/KeyError/... counts as a refusal",
-    "symlink loops are out of the generated domain (a scenario that creates one ends there)",
+    "symlink loops are out of the generated domain (a scenario that creates one ends there); directories that hold no "
+    "file (invisible to status) at or below a path the target tree needs as a file make a switch 'not clean' for oracle 1",
     "porcelain.add(paths=[p]) is never given a symlink that points to a directory (dulwich's tests pin that it scans the "
     "link like a directory); WorkTree.stage is given file-level paths only; WorkTree.unstage may differ from `git reset "
     "-- p` on entries below p/",
@@ -965,9 +966,14 @@ class Runner:
         dirs_a, dirs_b = _dirs_of(A), _dirs_of(B)
         across_df = (any(p in dirs_b for p in A) or any(p in dirs_a for p in B)
                      or any(p in B and (A[p][0] == LNK) != (B[p][0] == LNK) for p in A))
-        # an untracked directory tree without files at the place of a file of B: declared out of scope
-        if any(d in B and d not in dirs_a and any(e.startswith(d + b"/") for e in self.dirs) for d in self.dirs):
-            union_ok = False
+        # directories without any file in them (invisible to status) at or below the place of a file of B: whether a
+        # switch has to clear them away is declared out of scope, a refusal is accepted
+        wsorted = sorted(self.W)
+        for e in self.dirs:
+            if not M.has_prefix(wsorted, e + b"/"):
+                parts = e.split(b"/")
+                if any(b"/".join(parts[:i]) in B for i in range(1, len(parts) + 1)):
+                    union_ok = False
         try:
             porcelain.checkout(self.repo, f"br{k}")
         except Exception as e:
